@@ -86,8 +86,11 @@ macro_rules! buf_get_impl {
 
 // https://en.wikipedia.org/wiki/Sign_extension
 fn sign_extend(val: u64, nbytes: usize) -> i64 {
-    let shift = (8 - nbytes) * 8;
-    (val << shift) as i64 >> shift
+    // `nbytes == 0` gives a shift by the full width, which is not a valid shift
+    // amount: the value of zero bytes is zero.
+    let shift = ((8 - nbytes) * 8) as u32;
+    let val = val.checked_shl(shift).unwrap_or(0) as i64;
+    val.checked_shr(shift).unwrap_or(0)
 }
 
 /// Read bytes from a buffer.
